@@ -14,6 +14,7 @@ def describe(rendered):
 def check_sets(ctx, items, label):
     """items: (files, injection, rendered)"""
     res = mergecheck.run_sets(ctx, [x[2] for x in items], label)
+    mergecheck.coq_spec_check(ctx, [x[2] for x in items], res)
     for (files, inj, rendered), r in zip(items, res):
         if r[0] is None:
             continue
